@@ -81,16 +81,19 @@ namespace
     {
       // positions written twice (the last value counts); more writes than the allocation increment min(n, 1000) make
       // the container re-allocate its arrays
-      std::vector<char> twice(pos.size(), 0); Index writes = 0;
-      for(auto& w : twice) { w = c.rng.coin(0.15); writes += w ? 2 : 1; }
+      // (seed C04f: a position may be written up to four times before the lazy consolidation runs; the duplicate removal
+      // must keep exactly the last value of a run of equal indices of any length)
+      std::vector<char> twice(pos.size(), 0); Index writes = 0; bool multi = false;
+      for(auto& w : twice) { const double u = c.rng.unit(); w = char(u < 0.85 ? 0 : u < 0.93 ? 1 : u < 0.97 ? 2 : 3); writes += Index(w) + 1; if(w >= 2) multi = true; }
       if(writes > Index(pos.size())) c.tag("set:overwrites");
+      if(multi) c.tag("set:multi-overwrites");
       if(writes > std::min<Index>(t.n, 1000)) c.tag("set:realloc");
       c.set_op(pre + ".set");
       for(std::size_t q = 0; q < pos.size(); ++q)
       {
         const Index p = pos[q];
         auto x = rnd_val();
-        if(twice[q]) { auto junk = rnd_val(); set_at(v, p, junk); }
+        for(int r = 0; r < int(twice[q]); ++r) { auto junk = rnd_val(); set_at(v, p, junk); }
         set_at(v, p, x); t.e[p] = x;
       }
     }
@@ -115,6 +118,14 @@ namespace
       check_get<DT>(c, pre + ".get", v, t, "v(i)");
       // the vector does not hold the data it was given: the remaining judgements would only be consequences
       if(c.nviol != before) { end_case(c, family); return; }
+    }
+
+    // ---- number of stored entries = number of distinct positions written
+    {
+      c.set_op(pre + ".used_elements");
+      const Index ue = v.used_elements();
+      c.event();
+      if(ue != used) { c.viol(pre + ".used_elements", "wrong-value", vh::J().kv("got", (unsigned long)ue).kv("expected", (unsigned long)used).str()); end_case(c, family); return; }
     }
 
     // ---- clone
